@@ -71,6 +71,9 @@ def precondition(model):
 
 
 def run(ctx, model):
+    from . import signatures as _sig
+    _n_sig = _sig.check(ctx, model, "R-SIGNATURE", lambda k: k.split('.')[-1] in ('replace', 'split_by_match', 'split_by_capture'))
+    ctx.floor("R-SIGNATURE", _n_sig, 1, "public entry points")
     ctx.explanation = (
         "split_by_match, split_by_capture and replace are walked by the abstract interpreter over an abstract `re` "
         "layer.  R-CURSOR: for every order type of match/capture spans (none, at either end, whole text, adjacent, "
